@@ -248,6 +248,11 @@ pub(crate) struct ByteReader<T> {
     inner: Vec<T>,
 }
 
+#[cfg(feature = "verif-hooks")]
+pub(crate) fn verif_byte_reader(inner: Vec<Payload>) -> ByteReader<Payload> {
+    ByteReader { inner }
+}
+
 impl io::Read for ByteReader<Payload> {
     fn read(&mut self, dst: &mut [u8]) -> io::Result<usize> {
         let mut nbytes_read = 0;
